@@ -8,7 +8,9 @@ package util
 // (3) a lookup whose path runs through an absent node fails (never wrong data), other lookups succeed;
 // (4) after MergeDB from a donor store holding the removed nodes (either iteration order the store
 //     gives) the trie reads its full content under the same root and reports nothing missing;
-// (5) the donor store is unchanged.
+// (5) the donor store is unchanged;
+// (6) for a third of the subsets: repair through MergeState into the store of the same trie object
+//     that detected the missing nodes; that object must then report nothing missing and read everything.
 // property: C17
 // scope: 3 trie contents (6-9 nodes each, leaves/branches/extensions, a value on a branch); all 2^n subsets of non-root nodes; trie versions {creation version, creation version + 6}
 
@@ -170,6 +172,29 @@ func TestGocvBoundedC17(t *testing.T) {
 						}
 						if !blocked && (err != nil || len(v) == 0 || v[len(v)-1] != byte('a'+i)) {
 							fail("%s: lookup of %s does not touch an absent node but gives %q, %v", desc, k, v, err)
+						}
+					}
+					// repair path 2 (on copies of the stores): the absent nodes come back through MergeState into
+					// the store of the SAME trie object that detected them; it must then report nothing missing
+					if mask%3 == 1 {
+						damaged2, donor2 := NewMemoryNodeDB(), NewMemoryNodeDB()
+						_ = damaged.Iterate(context.Background(), func(ctx context.Context, key Key, node Node) error { return damaged2.PutNode(key, node) })
+						_ = donor.Iterate(context.Background(), func(ctx context.Context, key Key, node Node) error { return donor2.PutNode(key, node) })
+						same := NewMerklePatriciaTrie(damaged2, version, root, statecache.NewEmpty())
+						_, _ = same.HasMissingNodes(context.Background())
+						_, _ = same.GetAllMissingNodes()
+						if err := MergeState(context.Background(), donor2, same.GetNodeDB()); err != nil {
+							fail("%s: MergeState: %v", desc, err)
+						} else {
+							if has, err := same.HasMissingNodes(context.Background()); has || err != nil {
+								fail("%s: after MergeState into the store of the trie that detected the missing nodes, the same trie still reports missing nodes (%v)", desc, err)
+							}
+							for i, k := range keys {
+								v, err := same.GetNodeValueRaw(Path(k))
+								if err != nil || len(v) == 0 || v[len(v)-1] != byte('a'+i) {
+									fail("%s: after MergeState lookup of %s on the same trie gives %q, %v", desc, k, v, err)
+								}
+							}
 						}
 					}
 					tr2 := NewMerklePatriciaTrie(damaged, version, root, statecache.NewEmpty())
